@@ -501,6 +501,7 @@ func chanDesc(c *chanObj) string {
 
 func chanSend(cv, v value) {
 	c := asChan(cv)
+	v = copyVal(v)
 	selectOn([]waitCase{{ch: c, send: true, val: v}}, true, "send "+chanDesc(c))
 }
 
